@@ -185,9 +185,10 @@ func cmdRun(args []string) int {
 		for k, v := range src {
 			params[k] = v
 		}
-		if hs.InitDict {
-			params["init_dict"] = 1
-		}
+		// dict's init() (which loads the embedded dictionaries into dict.Default) always runs: code under
+		// test may refer to dict.Default even where the harness hands it another dictionary
+		_ = hs.InitDict
+		params["init_dict"] = 1
 		for _, pf := range paramFlags {
 			kv := strings.SplitN(pf, "=", 2)
 			if len(kv) == 2 {
